@@ -45,11 +45,11 @@ func init() {
 		Batches:  func(string) int { return 16 },
 		ChildEnv: foChildEnv,
 		Run:      runC18,
-		Rule: "two families: (a) backend-only workloads on the three backends with a harness StatsTracker ledger - sequential seeded op sequences and concurrent phases (Read/Write/Delete/Load/Store from 4..16 goroutines, ExpireAll/DeleteAll at barriers) - " +
+		Rule: "three families: (c) conservation: unique keys written once while Delete and DeleteAll race freely, cache_delete must equal writes minus final Len; (a) backend-only workloads on the three backends with a harness StatsTracker ledger - sequential seeded op sequences and concurrent phases (Read/Write/Delete/Load/Store from 4..16 goroutines, ExpireAll/DeleteAll at barriers) - " +
 			"ground truth from the harness' own operation log; (b) Failover/FailoverOf over a named wrapped backend driven by the C01 case generator (steered and free, no fault injection), ground truth from the event log " +
 			"(backend reads by result class, writes, builder invocations, failing ones, refresh writes, failure-cache writes); oracle at quiescence per name label, per metric and for the documented sums; " +
 			"distinct_nontrivial = distinct (family, backend/config, metric-vector) outcomes with at least 3 non-zero metrics",
-		Required:    []string{"a.sequential", "a.concurrent", "b.runs", "metric.cache_hit", "metric.cache_miss", "metric.cache_expired", "metric.cache_write", "metric.cache_delete", "metric.cache_build", "metric.cache_failed", "metric.cache_refreshed", "expireall.entries", "deleteall.entries"},
+		Required:    []string{"a.sequential", "a.concurrent", "b.runs", "c.conservation", "d.panicking_builder_runs", "metric.cache_hit", "metric.cache_miss", "metric.cache_expired", "metric.cache_write", "metric.cache_delete", "metric.cache_build", "metric.cache_failed", "metric.cache_refreshed", "expireall.entries", "deleteall.entries"},
 		Assumptions: []string{"evictions are off (no limits, janitor interval 1h)", "cache_refreshed is emitted before the refresh write: counted as attempts seen by the wrapper (workloads inject no backend faults, so attempts == re-stores)"},
 		Timeout:     func(string) time.Duration { return 20 * time.Minute },
 	})
@@ -61,9 +61,12 @@ func runC18(b *Batch) {
 		if b.Skip(i) {
 			continue
 		}
-		switch i % 3 {
+		switch i % 6 {
 		case 0:
 			c18Backend(b, i)
+		case 3:
+			c18Conservation(b, i)
+			c18PanickingBuilder(b, i)
 		default:
 			c18Failover(b, i)
 		}
@@ -100,7 +103,7 @@ func c18Backend(b *Batch, idx int) {
 	rng := rand.New(rand.NewSource(b.CaseSeed(idx)))
 	kind := backendKinds[rng.Intn(3)]
 	l := &ledger{m: map[string]float64{}}
-	be := newBackend(kind, cache.Config{Name: "be", Stats: l})
+	be := newBackend(kind, cache.Config{Name: "be", Stats: l, EvictionStrategy: c16Strategies[rng.Intn(3)]})
 	keys := make([][]byte, 4+rng.Intn(8))
 	for i := range keys {
 		keys[i] = []byte(fmt.Sprintf("m%d", i))
@@ -331,4 +334,145 @@ func c18Failover(b *Batch, idx int) {
 		return r.ledger[k]
 	}
 	c18Compare(b, idx, "failover/"+c.Cfg.API, got, want, x.witness(c))
+}
+
+// c18Conservation: unique keys written once; Delete and DeleteAll/ExpireAll race freely. Whatever the interleaving,
+// every entry is removed at most once: cache_delete == writes - final Len, cache_write == writes.
+func c18Conservation(b *Batch, idx int) {
+	rng := rand.New(rand.NewSource(b.CaseSeed(idx)))
+	kind := backendKinds[rng.Intn(3)]
+	l := &ledger{m: map[string]float64{}}
+	be := newBackend(kind, cache.Config{Name: "be", Stats: l, EvictionStrategy: c16Strategies[rng.Intn(3)]})
+	workers := 4 + rng.Intn(9)
+	per := 30 + rng.Intn(60)
+	var writes, reads int64
+	var wg sync.WaitGroup
+	stop := make(chan struct{})
+	var batchWG sync.WaitGroup
+	nBatch := 1 + rng.Intn(2)
+	for g := 0; g < nBatch; g++ {
+		batchWG.Add(1)
+		r := rand.New(rand.NewSource(rng.Int63()))
+		go func() {
+			defer batchWG.Done()
+			for {
+				select {
+				case <-stop:
+					return
+				default:
+				}
+				if r.Intn(4) == 0 {
+					be.DeleteAll(bg)
+				}
+				time.Sleep(time.Duration(r.Intn(50)) * time.Microsecond)
+			}
+		}()
+	}
+	for w := 0; w < workers; w++ {
+		wg.Add(1)
+		r := rand.New(rand.NewSource(rng.Int63()))
+		go func(w int) {
+			defer wg.Done()
+			for i := 0; i < per; i++ {
+				k := []byte(fmt.Sprintf("u%d-%d", w, i))
+				be.Write(bg, k, "v")
+				atomic.AddInt64(&writes, 1)
+				if r.Intn(2) == 0 {
+					be.Delete(bg, k)
+				}
+				if r.Intn(3) == 0 {
+					be.Read(bg, k)
+					atomic.AddInt64(&reads, 1)
+				}
+			}
+		}(w)
+	}
+	wg.Wait()
+	close(stop)
+	batchWG.Wait()
+	b.R.Eval()
+	b.R.Count("c.conservation", 1)
+	final := be.Len()
+	want := map[string]float64{"cache_write{be}": float64(writes), "cache_delete{be}": float64(writes) - float64(final)}
+	got := func(k string) float64 { return l.get(k) }
+	c18Compare(b, idx, "conservation/"+kind, got, want, map[string]interface{}{"backend": kind, "workers": workers, "writes": writes, "final_len": final})
+	if s := l.get("cache_hit{be}") + l.get("cache_miss{be}") + l.get("cache_expired{be}"); s != float64(reads) {
+		b.R.Violate(b, idx, "C18:conservation/"+kind+":reads", fmt.Sprintf("hit+miss+expired = %v, reads = %d", s, reads), nil)
+	}
+}
+
+// c18PanickingBuilder: sequential lone Gets whose builder returns, fails or panics (the caller recovers); every builder
+// invocation must be counted in cache_build exactly once.
+func c18PanickingBuilder(b *Batch, idx int) {
+	rng := rand.New(rand.NewSource(b.CaseSeed(idx) ^ 0x5bd1e995))
+	l := &ledger{m: map[string]float64{}}
+	generic := rng.Intn(2) == 0
+	var get func(key []byte, mode int) (panicked bool)
+	var invocations, failures float64
+	if generic {
+		f := cache.NewFailoverOf[string](cache.FailoverConfigOf[string]{Name: "pf", Stats: l, FailedUpdateTTL: -1}.Use)
+		get = func(key []byte, mode int) (panicked bool) {
+			defer func() {
+				if recover() != nil {
+					panicked = true
+				}
+			}()
+			_, _ = f.Get(bg, key, func(context.Context) (string, error) {
+				invocations++
+				switch mode {
+				case 1:
+					failures++
+					return "", fmt.Errorf("failing")
+				case 2:
+					panic("builder panic")
+				}
+				return "v", nil
+			})
+			return false
+		}
+	} else {
+		f := cache.NewFailover(cache.FailoverConfig{Name: "pf", Stats: l, FailedUpdateTTL: -1}.Use)
+		get = func(key []byte, mode int) (panicked bool) {
+			defer func() {
+				if recover() != nil {
+					panicked = true
+				}
+			}()
+			_, _ = f.Get(bg, key, func(context.Context) (interface{}, error) {
+				invocations++
+				switch mode {
+				case 1:
+					failures++
+					return nil, fmt.Errorf("failing")
+				case 2:
+					panic("builder panic")
+				}
+				return "v", nil
+			})
+			return false
+		}
+	}
+	n := 5 + rng.Intn(20)
+	var modes []int
+	for i := 0; i < n; i++ {
+		mode := rng.Intn(3)
+		modes = append(modes, mode)
+		key := []byte(fmt.Sprintf("pk-%d", rng.Intn(6)))
+		done := make(chan struct{})
+		go func() { get(key, mode); close(done) }()
+		select {
+		case <-done:
+		case <-time.After(5 * time.Second):
+			b.R.Violate(b, idx, "C18:panicking-builder:blocked", "a Get blocked after an earlier builder panic on the same key", map[string]interface{}{"modes": modes})
+			return
+		}
+	}
+	b.R.Eval()
+	b.R.Count("d.panicking_builder_runs", 1)
+	api := "Failover"
+	if generic {
+		api = "FailoverOf"
+	}
+	want := map[string]float64{"cache_build{pf}": invocations, "cache_failed{pf}": failures}
+	c18Compare(b, idx, "panicking-builder/"+api, l.get, want, map[string]interface{}{"modes(0=ok,1=err,2=panic)": modes})
 }
